@@ -207,7 +207,11 @@ def run_case(ck, desc):
         import pandas as pd
 
         as_series = int(desc["pmax"]) % 2 == 1
-        arg = pd.Series(dict(comp, well="A-1")) if as_series else comp  # a row of a well table
+        arg = comp
+        if as_series:
+            # a row of a wells table: labelled fields, in the documented order or in another one, with other fields after them
+            order = ["CO2", "Reservoir Temperature (deg F)", "N2", "Gas Specific Gravity", "H2S", "well"] if int(desc["pmax"]) % 4 == 1 else list(comp) + ["well"]
+            arg = pd.Series({k: dict(comp, well="A-1")[k] for k in order})
         pmax_arg = int(desc["pmax"]) if float(desc["pmax"]).is_integer() else desc["pmax"]
         for bad in ("", "gas", "dry", "oil", "Dry gas"):
             try:
